@@ -5,6 +5,8 @@
    statement-count measurement of the implementation on growing input families (lib/c20.py). *)
 From Coq Require Import List Arith Bool Lia.
 From GV Require Import Model.Cost Proofs.CostP.
+From GV Require Import Gen.LexTables Model.Lexer Proofs.LexerP Model.Loops Proofs.LoopsP.
+From GV Require Import Model.Walk Model.QAst Model.Extract Proofs.ExtractP.
 Import ListNotations.
 
 (* the repaired conversion answers every list of queries, in any order, exactly as the rescanning one does *)
@@ -28,6 +30,24 @@ Theorem C20_rescan_quadratic_refuted :
     2 * rescan_total [0] len (evenly d k) = 2 * k + d * k * (k - 1).
 Proof. exact rescan_total_quadratic. Qed.
 
+(* ---- the other linear stages that have a model ---- *)
+(* tokenizing: the token loop with fuel |bs|+1 never runs out: at most |bs|+1 iterations, each consuming at least one
+   byte (the progress lemmas of Proofs/LexerP.v), for every byte string *)
+Theorem C20_tokenizer_iterations_linear : forall bs, tokenize bs <> OutOfFuel.
+Proof. intros bs. exact (proj2 (tokenize_total bs)). Qed.
+
+(* the statement loops: at most |tokens|+1 iterations for every statement parser that consumes on success *)
+Theorem C20_statement_loop_iterations_linear :
+  forall tree ntok is_eof is_semi ps, (forall p t p', ps p = SOk t p' -> p < p') ->
+  forall strict pos acc, parse tree ntok is_eof is_semi ps strict (S (ntok - pos)) pos acc <> PFuel.
+Proof. intros tree ntok is_eof is_semi ps H strict pos acc.
+       apply (parse_fuel tree ntok is_eof is_semi (fun _ => false) ps H). apply Nat.lt_succ_diag_r. Qed.
+
+(* metadata extraction: one visit per node, for every tree and every Children() table (the pinned double recursion
+   cost 2^k visits on k UNIONs: Props/C15.v C15_collect_visits_exponential_refuted) *)
+Theorem C20_collect_visits_linear : forall em (stmts : list qn), visits em stmts <= list_sum (map qsize stmts).
+Proof. exact collect_visits_linear. Qed.
+
 (* non-vacuity: a 3-line input "ab\n\tcd\nef" (line table [0;3;7], tab at offset 3), queries in tokenizer order
    and then one backward query *)
 Example C20_example :
@@ -38,3 +58,6 @@ Proof. vm_compute. reflexivity. Qed.
 Print Assumptions C20_resume_point_is_rescan.
 Print Assumptions C20_position_work_linear.
 Print Assumptions C20_rescan_quadratic_refuted.
+Print Assumptions C20_tokenizer_iterations_linear.
+Print Assumptions C20_statement_loop_iterations_linear.
+Print Assumptions C20_collect_visits_linear.
